@@ -113,15 +113,25 @@ func c18Deps(t *kernel.Tape, names []string, vers map[string][]string, from, max
 		}
 		return svcDep{Name: n, Req: r}
 	}
+	// the sections of a package.json are JSON objects: a name occurs at most
+	// once per section (it may occur in several sections)
+	addUnique := func(sec *[]svcDep, x svcDep) {
+		for _, y := range *sec {
+			if y.Name == x.Name {
+				return
+			}
+		}
+		*sec = append(*sec, x)
+	}
 	for i, n := 0, t.Choose(max+1); i < n; i++ {
-		d.Deps = append(d.Deps, one())
+		addUnique(&d.Deps, one())
 	}
 	// the other sections: usually empty, sometimes several entries (types
 	// built from one section must not leak into each other)
 	for _, sec := range []*[]svcDep{&d.Dev, &d.Opt, &d.Peer} {
 		if t.Bool(1, 5) {
 			for i, n := 0, 1+t.Choose(3); i < n; i++ {
-				*sec = append(*sec, one())
+				addUnique(sec, one())
 			}
 		}
 	}
@@ -340,6 +350,12 @@ func newSimService(t *kernel.Tape, s *svcSpec, mentioned []string) *simService {
 		}
 	}
 	// packages that are only mentioned: known, no versions
+	// A package that is only mentioned in requirements (a dangling dependency,
+	// or the alias name listed in bundleDependencies) is either unknown to the
+	// service (NotFound, as the real service answers) or known without versions.
+	if t.Bool(1, 2) {
+		mentioned = nil
+	}
 	for _, n := range mentioned {
 		if _, ok := sv.pkgs[n]; !ok {
 			sv.pkgs[n] = mustMarshal(&pb.Package{PackageKey: &pb.PackageKey{System: pb.System_NPM, Name: n}})
@@ -600,6 +616,10 @@ func RunC18(t *kernel.Tape, o Opts) *Result {
 			mentioned = append(mentioned, pk.Name)
 		}
 	}
+	defined := map[string]bool{}
+	for _, p := range svc.Pkgs {
+		defined[p.Name] = true
+	}
 	service := newSimService(t, svc, mentioned)
 	concurrent := t.Bool(2, 3)
 
@@ -847,6 +867,13 @@ func RunC18(t *kernel.Tape, o Opts) *Result {
 		isBundle := strings.Contains(c.key.Name, ">")
 		wantFound, wantDigest := c18Expect(ref, c.kind, c.key)
 		if !isBundle {
+			if !c.found && c.notFound && wantFound && !defined[c.key.Name] {
+				// a package the service does not have: the in-memory client knows
+				// it (without versions) because a requirement mentions it, the
+				// API client truthfully reports not found
+				probe(res, "dangling_package_lookups", 1)
+				continue
+			}
 			if c.found != wantFound {
 				violate(res, "model-mismatch", "model-mismatch:regular:"+c.kind+":found", int(c.call), "%s(%s %s): found=%v, the same data in a LocalClient gives found=%v", c.kind, c.key.Name, c.key.Version, c.found, wantFound)
 			} else if c.found && c.digest != wantDigest {
